@@ -123,6 +123,7 @@ ec_backend_t liberasurecode_backend_instance_get_by_desc(int desc)
     b = liberasurecode_backend_instance_get_by_desc_locked(desc);
     VERIF_YIELD("l_unlock");
     rwlock_unlock(&active_instances_rwlock);
+    VERIF_YIELD("l_rel");
     return b;
 }
 
@@ -171,6 +172,7 @@ int liberasurecode_backend_instance_register(ec_backend_t instance)
 register_out:
     VERIF_YIELD("c_un");
     rwlock_unlock(&active_instances_rwlock);
+    VERIF_YIELD("c_rel");
 exit:
     return desc;
 }
@@ -194,6 +196,7 @@ int liberasurecode_backend_instance_unregister(ec_backend_t instance)
     }
     VERIF_YIELD("d_un");
     rwlock_unlock(&active_instances_rwlock);
+    VERIF_YIELD("d_rel");
 
 exit:
     return rc;
